@@ -3,6 +3,7 @@
 package pub
 
 import (
+	"bytes"
 	"encoding/json"
 	"fmt"
 	"math/rand"
@@ -347,8 +348,12 @@ func TestVerifRender(t *testing.T) {
 		if c, ok := o["content"].(string); ok {
 			desc += " content=" + verifkit.Clip(c, 60) + fmt.Sprintf("(%d bytes, %v)", len(c), o["mediaType"])
 		}
-		encoded, _ := json.Marshal(o)
-		size0 := len(encoded)
+		/* the size of the document as a server would send it (json.Marshal would write < and > as six bytes each) */
+		var encoded bytes.Buffer
+		encoder := json.NewEncoder(&encoded)
+		encoder.SetEscapeHTML(false)
+		encoder.Encode(o)
+		size0 := encoded.Len()
 		out.Emit(verifkit.M{"ev": "begin", "i": i, "desc": desc})
 		if path := os.Getenv("VERIF_PRINT"); path != "" {
 			/* replay support: write the generated value instead of exercising it */
